@@ -2,13 +2,18 @@
 at, inside and beyond the current length and capacity (initial capacities 0,1,2,31..33,
 growth by doubling, shrink to exact size), at SIZE_MAX-adjacent arguments (refused before
 any allocation, or refused by the allocation limit which is always set), and at allocation
-refusal.  Both APIs are driven: array_list_* (mode d) and json_object_array_* (mode j)."""
+refusal.  A second family of histories works on LARGE arrays (capacities 300 .. 65537 slots,
+set exactly with shrink or reached by a far put / block appends) and then puts / inserts at
+1x .. 3x the capacity, appends across the capacity edge, deletes big ranges, shifts big blocks:
+anything in the growth / move arithmetic that depends on the absolute size shows there.
+Both APIs are driven: array_list_* (mode d) and json_object_array_* (mode j)."""
 PROP = "C07"
 DOMAIN = "al"
 LEVEL = "proof"
 TECHNIQUE = "Coq refinement proof (AlProofs.v) + extracted-model/C differential correspondence"
 RULE = ("histories of 1..40 array operations (add, put_idx, insert_idx, del_idx, get_idx, shrink, sort, bsearch) generated from "
-        "one PRNG with a shadow of (length, capacity) used only to aim indices/counts at the boundaries; two API modes; a case is "
+        "one PRNG with a shadow of (length, capacity) used only to aim indices/counts at the boundaries, plus large-array histories "
+        "(capacity 300..65537 slots, indices up to 3x the capacity, block appends M<k>); two API modes; a case is "
         "non-trivial when at least one operation succeeded and the capacity changed or an operation was refused; distinct = "
         "distinct (script) among those")
 TRUSTED = ["Coq 8.16.1 kernel (coqc), no axioms (Print Assumptions: closed under the global context)",
@@ -30,7 +35,143 @@ def estr(e):
 
 # ------------------------------------------------------------------ generator
 def gen(rng, tier):
-    n = 3000 if tier == "quick" else 300000
+    n = 3000 if tier == "quick" else 200000
+    nbig = 80 if tier == "quick" else 3000
+    out = gen_small(rng, n - nbig)
+    out += gen_big(rng, nbig)
+    return out
+
+
+MAXLEN = 140000        # largest length a large-array history may reach (model driver cost is O(capacity) per op)
+
+
+def gen_big(rng, n):
+    """large arrays: the capacity is set exactly (shrink), or reached by one far put or by block appends; then
+    far puts/inserts at 1x..3x the capacity, appends across the capacity edge, big range deletes, big shifts"""
+    import math
+    out = []
+    for ci in range(n):
+        mode = "d" if rng.random() < 0.5 else "j"
+        init = rng.choice([0, 1, 2, 31, 32, 33, 32, 8])
+        r = rng.random()
+        if r < 0.40:
+            t = (1 << rng.choice([8, 9, 10, 11, 12, 13, 13, 14, 14, 15])) + rng.choice([-1, 0, 0, 1])
+        elif r < 0.47:
+            t = (1 << 16) + rng.choice([-1, 0, 1])
+        else:
+            t = int(math.exp(rng.uniform(math.log(300), math.log(20000))))
+        limit = BIG
+        if rng.random() < 0.15:
+            limit = int(8 * t * rng.choice([1, 1.3, 1.6, 2.2, 3.5]))
+        sh = []
+        cap = init
+        nid = [rng.randint(1, 500)]
+        ops = []
+
+        def fresh():
+            if rng.random() < 0.1:
+                return None
+            nid[0] += rng.choice([1, 2, 50])
+            return nid[0]
+
+        def grow(need):
+            nonlocal cap
+            if need < cap:
+                return True
+            ns = max(cap * 2, need)
+            if ns * 8 > limit:
+                return False
+            cap = ns
+            return True
+
+        def do_put(i, e, ins):
+            L = len(sh)
+            ops.append("%s%d,%s" % ("I" if ins else "P", i, estr(e)))
+            if i >= L:
+                if grow(i + 1):
+                    sh.extend([None] * (i - L) + [e])
+            elif ins:
+                if grow(L + 1):
+                    sh.insert(i, e)
+            elif grow(i + 1):
+                sh[i] = e
+
+        def do_many(k):
+            k = max(1, min(k, 2000000 // max(cap, 1000)))      # bounded model cost: k * capacity
+            ops.append("M%d,%d" % (k, nid[0] + 1))
+            for j in range(k):
+                if not grow(len(sh) + 1):
+                    break
+                sh.append(nid[0] + 1 + j)
+            nid[0] += k
+
+        def do_shrink(k):
+            nonlocal cap
+            ops.append("H%d" % k)
+            ns = len(sh) + k
+            if ns == cap:
+                return
+            if ns > cap:
+                grow(ns)
+            elif max(ns, 1) * 8 <= limit:
+                cap = max(ns, 1)
+
+        # some real content first (cheap while the array is small)
+        if rng.random() < 0.6:
+            do_many(rng.choice([1, 5, 33, 100, 300, 700]))
+        # reach the target capacity
+        r = rng.random()
+        if r < 0.45:
+            do_shrink(max(t - len(sh), 0))                      # capacity exactly t
+        elif r < 0.85:
+            do_put(max(t - 1, len(sh)), fresh(), rng.random() < 0.3)    # length t
+        else:
+            do_shrink(max(t - len(sh) - 40, 0))
+            do_many(40 + rng.choice([-1, 0, 1, 2]))             # appends up to / across the capacity edge
+        for _ in range(rng.randint(3, 7)):
+            L = len(sh)
+            r = rng.random()
+            if r < 0.35:
+                f = rng.choice([1, 1.25, 1.5, 1.5, 1.51, 1.75, 2, 2, 2.5, 3])
+                i = int(f * cap) + rng.choice([-1, 0, 1])
+                if i >= MAXLEN:
+                    i = min(int(1.5 * cap) + 1, MAXLEN)
+                do_put(max(i, 0), fresh(), rng.random() < 0.4)
+            elif r < 0.48:
+                i = rng.choice([L - 1, L, L + 1, cap - 1, cap, cap + 1, 0, L // 2])
+                do_put(max(i, 0), fresh(), rng.random() < 0.6)
+            elif r < 0.56:
+                e = fresh()
+                ops.append("A" + estr(e))
+                if grow(L + 1):
+                    sh.append(e)
+            elif r < 0.66:
+                room = cap - L
+                do_many(room + rng.choice([-1, 0, 1, 2]) if 0 < room <= 60 else rng.randint(1, 40))
+            elif r < 0.80:
+                i = rng.choice([0, L // 2, max(L - 1, 0), rng.randint(0, max(L - 1, 0)), L, 1])
+                c = rng.choice([L - i, L - i, max(L - i - 1, 0), (L - i) // 2, 1, 0, L - i + 1, L, SIZE_MAX - i])
+                c = max(c, 0)
+                ops.append("D%d,%d" % (i, c))
+                if i < L and i + c <= L:
+                    del sh[i:i + c]
+            elif r < 0.86:
+                ops.append("G%d" % max(rng.choice([L - 1, L, cap - 1, cap, 2 * cap, rng.randint(0, max(L, 1))]), 0))
+            elif r < 0.95:
+                k = rng.choice([0, 0, 1, cap - L, cap - L + 1, cap - L - 1, (1 << rng.randint(8, 15)) - L, 2 * cap - L])
+                if L + max(k, 0) >= MAXLEN:
+                    k = 0
+                do_shrink(max(k, 0))
+            else:
+                ops.append("S")
+                sh.sort(key=lambda x: (x is not None, x or 0))
+                ks = [x for x in sh if x is not None]
+                ops.append("B%d" % (rng.choice(ks) if ks and rng.random() < 0.6 else rng.randint(1, 100000)))
+        out.append(("al %s %d %d %s" % (mode, limit, init, ";".join(ops)), {"kind": "large-" + mode}))
+    return out
+
+
+def gen_small(rng, n):
     out = []
     for ci in range(n):
         mode = "d" if rng.random() < 0.5 else "j"
@@ -170,8 +311,25 @@ def parse_elt(s):
     return None if s == "n" else int(s)
 
 
+def parse_seq(s):
+    """decode a run-length encoded sequence: e | e*k (k copies) | e+k (k consecutive ids) | - (empty)"""
+    if s == "-":
+        return []
+    out = []
+    for it in s.split(","):
+        if "*" in it:
+            e, k = it.split("*")
+            out.extend([parse_elt(e)] * int(k))
+        elif "+" in it:
+            e, k = it.split("+")
+            out.extend(range(int(e), int(e) + int(k)))
+        else:
+            out.append(parse_elt(it))
+    return out
+
+
 def parse_ids(s):
-    return [] if s == "-" else [int(x) for x in s.split(",")]
+    return parse_seq(s)
 
 
 def parse_step(s):
@@ -180,7 +338,7 @@ def parse_step(s):
         return None
     try:
         return dict(ret=t[0], len=int(t[1]), size=int(t[2]), rel=parse_ids(t[3]),
-                    data=[] if t[4] == "-" else [parse_elt(x) for x in t[4].split(",")], past=t[5])
+                    data=parse_seq(t[4]), past=t[5])
     except ValueError:
         return None
 
@@ -227,6 +385,8 @@ def oracle(line, meta, impl):
     ops = ops.split(";")
     if "LEAK" in impl:
         return ("leak", "element or allocation leaked: " + impl[-60:])
+    if "BADOP" in impl or "BADLINE" in impl:
+        return ("malformed", "driver rejected the script: " + impl[-60:])
     if impl == "NEWFAIL":
         if 0 <= init and init * 8 <= limit and limit >= 64:
             return ("new-failed", "array creation with capacity %d failed although memory was available" % init)
@@ -267,6 +427,23 @@ def oracle(line, meta, impl):
                 want = "f" if key in lst else "nf"
                 if st["ret"] != want:
                     return ("bsearch", "bsearch(%s) = %s but the list model says %s %s" % (estr(key), st["ret"], want, where))
+            continue
+        if k == "M":
+            # k appends, stopping at the first refusal: the result is the list plus a prefix of the ids
+            cnt, id0 = [int(x) for x in op[1:].split(",")]
+            j = st["len"] - len(lst)
+            if st["ret"] not in ("0", "-1") or st["rel"]:
+                return ("ret", "block append returned %s / released %s %s" % (st["ret"], st["rel"][:5], where))
+            if not (0 <= j <= cnt) or st["data"] != lst + list(range(id0, id0 + j)):
+                return ("contents", "contents after appending differ from the list model %s" % where)
+            if st["ret"] == "0" and j != cnt:
+                return ("contents", "block append reported success after %d of %d appends %s" % (j, cnt, where))
+            if st["ret"] == "-1":
+                need = len(lst) + j + 1           # the refused append
+                if j == cnt or need < st["size"] or max(2 * st["size"], need, 1) * 8 <= limit:
+                    return ("spurious-failure", "append failed although no allocation could have been refused %s" % where)
+            lst = st["data"]
+            size = st["size"]
             continue
         in_range, new, rel, need = apply_op(lst, op, limit)
         if st["ret"] not in ("0", "-1"):
